@@ -13,7 +13,7 @@ def Keeps (i : Nat) (f : Conn → Option Conn) : Prop :=
   ∀ k k', f k = some k' → k'.srvClosed = k.srvClosed ∧ (k.registered = true → k'.registered = true) ∧
     ∀ q, k.reqs[i]? = some q → q.st = .queued → k'.reqs[i]? = some q
 
-theorem keeps_cSend (i : Nat) (r : Rid) : Keeps i (cSend r) := by
+theorem keeps_cSend (i : Nat) (nr : Bool) (r : Rid) : Keeps i (cSend nr r) := by
   intro k k' h; unfold cSend at h; split at h <;> try contradiction
   simp only [Option.some.injEq] at h; subst h; exact ⟨rfl, id, fun _ hq _ => hq⟩
 
@@ -77,8 +77,12 @@ theorem keeps_cStartP (i j : Nat) : Keeps i (cStartP j) :=
   keeps_cSetSt i j .handed (fun _ => .running) (by simp)
 theorem keeps_cFin (i j : Nat) : Keeps i (cFin j) :=
   keeps_cSetSt i j .running (fun _ => .finished) (by simp)
+theorem keeps_of_imp {i : Nat} {f g : Conn → Option Conn} (h : ∀ k k', f k = some k' → g k = some k')
+    (hg : Keeps i g) : Keeps i f := fun k k' hf => hg k k' (h k k' hf)
 theorem keeps_cWrite (i j : Nat) : Keeps i (cWrite j) :=
-  keeps_cSetSt i j .finished (fun k => .wrote (!k.srvClosed)) (by simp)
+  keeps_of_imp (cWrite_imp j) (keeps_cSetSt i j .finished (fun k => .wrote (!k.srvClosed)) (by simp))
+theorem keeps_cSkip (i : Nat) (d : Bool) (j : Nat) : Keeps i (cSkip d j) :=
+  keeps_of_imp (cSkip_imp d j) (keeps_cSetSt i j .finished (fun _ => if d then .wrote true else .leaked) (by simp))
 
 theorem keeps_cDec (i j : Nat) : Keeps i (cDec j) := by
   intro k k' h
@@ -193,7 +197,8 @@ theorem dropped_step {cfg : Cfg} {n qc : Nat} (hpool : cfg.pool = some (n, qc)) 
     have hlt : c < s.conns.length := (List.getElem?_eq_some_iff.mp hck).1
     simp only
     rw [List.getElem?_append_left hlt]; exact hck
-  | send c' r => exact dropped_updConn (keeps_cSend i r) hd h
+  | send c' r => exact dropped_updConn (keeps_cSend i false r) hd h
+  | sendNR c' r => exact dropped_updConn (keeps_cSend i true r) hd h
   | accept c' =>
     simp only [step] at h
     split at h
@@ -238,6 +243,7 @@ theorem dropped_step {cfg : Cfg} {n qc : Nat} (hpool : cfg.pool = some (n, qc)) 
     exact dropped_updConn (keeps_cStartP i j) hd h
   | fin c' j => exact dropped_updConn (keeps_cFin i j) hd h
   | write c' j => exact dropped_updConn (keeps_cWrite i j) hd h
+  | skip c' j => exact dropped_updConn (keeps_cSkip i _ j) hd h
   | dec c' j => exact dropped_updConn (keeps_cDec i j) hd h
   | drainClose c' =>
     by_cases hcc : c' = c
